@@ -23,6 +23,12 @@ def check(case):
     doc = case['doc']
     text = S.render(doc)
     kdoc = K.loads_clean(text)
+    try:
+        # a narrowed export first: the default export that follows must not remember it
+        import kernpy as kp
+        kp.dumps(kdoc, exclude=[kp.TokenCategory.DECORATION, kp.TokenCategory.DURATION])
+    except Exception:  # noqa  (what this call returns is C05's business)
+        pass
     out = K.dumps(kdoc)
     exp = K.expected_rows(doc)
     got = K.grid(out)
